@@ -401,6 +401,10 @@ impl Flavor for Fat {
     fn string(v: u32) -> String {
         // a third are short, the others 64..200 bytes with a long common prefix and the
         // distinguishing part at the very end
+        if v % 7 == 3 {
+            // beyond half a kilobyte (a path, a URL with a token, a license text)
+            return format!("{}{v}", "long/".repeat(104 + (v as usize % 300)));
+        }
         match v % 3 {
             0 => format!("s{v}"),
             1 => format!("{}{v}", "a-rather-long-common-prefix/".repeat(3)),
@@ -810,7 +814,7 @@ impl Property for C18 {
         1500
     }
     fn rule(&self) -> String {
-        "tape -> history of intern_string / intern_package_name / lookup_package_name / intern_version_set / intern_solvable / intern_version_set_union / resolve_* calls on a Pool, with values from a small alphabet (frequent re-interning) and fresh values (arenas cross several 128-element chunks, maps rehash), interpreted against HashMap/Vec reference models: equal values share ids, new values get the next dense id, solvable and union ids are always fresh and dense, resolve/lookup return exactly what was interned; REFERENCES (&str, &Name, &VersionSet, &Solvable) obtained from the pool are held across all later insertions and must keep their address and contents. Stage main uses Pool<Vs(u32),String> with u32 records and short strings; stage fat uses 100..160-byte version sets and records, strings of 64..200 bytes that share long prefixes, and package-name and version-set types whose Hash is coarser than their Eq (legal; the pool must still tell such values apart). Stage bulk ends histories with one or two single-kind phases of 256..12000 fresh items (one arena then spans up to ~90 chunks and several growth steps of its chunk table) and interns unions re-entrantly from inside the exact-size member iterator of another union (inner id first, both dense, both resolvable). Non-trivial: the history crosses >=2 chunk boundaries with >=10 references held across them. Distinct = distinct hash of the history.".into()
+        "tape -> history of intern_string / intern_package_name / lookup_package_name / intern_version_set / intern_solvable / intern_version_set_union / resolve_* calls on a Pool, with values from a small alphabet (frequent re-interning) and fresh values (arenas cross several 128-element chunks, maps rehash), interpreted against HashMap/Vec reference models: equal values share ids, new values get the next dense id, solvable and union ids are always fresh and dense, resolve/lookup return exactly what was interned; REFERENCES (&str, &Name, &VersionSet, &Solvable) obtained from the pool are held across all later insertions and must keep their address and contents. Stage main uses Pool<Vs(u32),String> with u32 records and short strings; stage fat uses 100..160-byte version sets and records, strings of 64..200 bytes that share long prefixes and strings of 520..2000 bytes, and package-name and version-set types whose Hash is coarser than their Eq (legal; the pool must still tell such values apart). Stage bulk ends histories with one or two single-kind phases of 256..12000 fresh items (one arena then spans up to ~90 chunks and several growth steps of its chunk table) and interns unions re-entrantly from inside the exact-size member iterator of another union (inner id first, both dense, both resolvable). Non-trivial: the history crosses >=2 chunk boundaries with >=10 references held across them. Distinct = distinct hash of the history.".into()
     }
     fn describe(&self, tape: &[u16]) -> String {
         let ops = self.decode(tape);
